@@ -194,17 +194,35 @@ func alphabet(t reflect.Type, salt int) []reflect.Value {
 		out = append(out, v)
 	case reflect.Ptr:
 		// nil pointers are outside the encodable domain (Serialization dereferences them); probed separately
-		for _, s := range structVectors(t.Elem(), salt) {
+		for _, s := range nestedValues(t.Elem(), salt) {
 			p := reflect.New(t.Elem())
 			p.Elem().Set(s)
 			out = append(out, p)
 		}
 	case reflect.Struct:
-		out = structVectors(t, salt)
+		out = nestedValues(t, salt)
 	default:
 		unsupported(t)
 	}
 	return out
+}
+
+// nestedValues: the alphabet of a nested record (by value, embedded or behind a pointer): zero vector, typical vector,
+// every 1-deviation of the typical vector, max vector (first = zero end, last = max end).
+func nestedValues(t reflect.Type, salt int) []reflect.Value {
+	sv := structVectors(t, salt)
+	if t.Kind() != reflect.Struct {
+		return sv
+	}
+	out := []reflect.Value{sv[0], sv[1]}
+	for i := 0; i < t.NumField(); i++ {
+		for _, a := range alphabet(t.Field(i).Type, salt*16+i+1) {
+			v := deepCopy(sv[1])
+			v.Field(i).Set(deepCopy(a))
+			out = append(out, v)
+		}
+	}
+	return append(out, sv[2])
 }
 
 func structVectors(t reflect.Type, salt int) []reflect.Value {
